@@ -64,6 +64,27 @@ def no_rejection_after_events(ctx, n):
         odd += [f"Err(..) built in bb{bb}" for bb in errb]
         ctx.expect_sites(f"{n}.only-storage-failures-after-first-event", odd, exactly=0,
                          what="error exit after spend_input_utxos that is not the `?` of persist_output_utxos / ProcessedTransactions.insert / update_execution_data")
+        _totals_updated_last(ctx, n, b, sp)
         dup = ctx.one_call(ctx.body_with(f"{EXQ}::execute_transaction", f"{EXQ}::check_tx_is_not_duplicate"), f"{EXQ}::check_tx_is_not_duplicate")
         ctx.add(f"{n}.duplicate-check-before-any-effect", "ORDER", all(dup.body.path([c.target], [dup.bb]) is None for c in dup.body.calls if c.bb in dup.body.live and c.name.startswith("execute_") and c.target is not None),
                 "the duplicate-id rejection happens before the transaction is executed", sites=[dup.where()], site_key="dup")
+
+def _totals_updated_last(ctx, n, b, sp):
+    EXQ = "fuel_core_executor::executor::BlockExecutor"
+    # the block-wide totals (coinbase, used gas / size, statuses) are updated last: only once every fallible step succeeded
+    upd = ctx.one_call(b, f"{EXQ}::update_execution_data")
+    pers = ctx.one_call(b, f"{EXQ}::persist_output_utxos")
+    ctx.after_ok(f"{n}.totals-updated-after-inputs-spent", sp, [upd], detail="fee / gas / size of a transaction are added to the block totals only after its inputs were spent successfully "
+                 "(a transaction skipped in between would leave its fee in the mint amount)")
+    ctx.after_ok(f"{n}.totals-updated-after-outputs-stored", pers, [upd])
+    later = [c for c in b.calls if c.bb in b.live and upd.target is not None and c.bb in b.reach([upd.target]) and c.name in ("spend_input_utxos", "persist_output_utxos", "insert", "replace", "attempt_tx_execution_with_vm")]
+    ctx.expect_sites(f"{n}.nothing-fallible-after-totals", later, exactly=0, what="fallible execution step after update_execution_data")
+
+
+def totals_updated_last(ctx, n):
+    """C03: the mint amount is the sum of the fees of the *included* transactions"""
+    EXQ = "fuel_core_executor::executor::BlockExecutor"
+    with ctx.clause(f"{n}.totals-updated-last"):
+        b = ctx.body_with(f"{EXQ}::execute_chargeable_transaction", f"{EXQ}::spend_input_utxos")
+        sp = ctx.one_call(b, f"{EXQ}::spend_input_utxos")
+        _totals_updated_last(ctx, n, b, sp)
